@@ -144,6 +144,9 @@ def _run_one(args):
         ck = report.Check(Program(src), prop, "quick")
         err = None
         try:
+            ov = ck.prog.unmodelled_overrides()
+            if ov:
+                raise AnalysisError("new method override(s) in the class hierarchy are not modelled: %s" % "; ".join(ov[:3]))
             rm.check(ck)
             ck.finish()
         except AnalysisError as ex:
